@@ -699,6 +699,10 @@ impl OrdSpecImpl for Version { open spec fn obeys_cmp_spec() -> bool { true } op
                     continue
                 body = body.replace(a, b)
                 f.rewrites.append('%s: `%s`' % (why, a.split('\n')[0][:60]))
+            # a closure that received no contract (one the tables do not know: the code changed shape) tells Verus nothing about its result;
+            # a failure of this function's proof is then not an alarm by itself (soft failure, like a call to a helper without contract)
+            for cm2 in re.finditer(r'(?<![\w)\]|])\s*(?:move\s+)?\|(?!\|)([^|\n]*)\|(?!\|)(?!\s*->)', mask_code(body)):
+                lost.append('%s: a closure without contract (`|%s|`): its effect is unknown to the verifier' % (n, cm2.group(1).strip()[:30]))
             mod = 'm_vg_' + n
             g.private_mods.add(mod)
             head = K.grammar_sig(n) + '\n' + (K.GRAMMAR_CONTRACT % (n, n)) + '\n'
